@@ -50,7 +50,7 @@ Fixpoint chain (ap : Z -> list Z -> option (list Z)) (fns : list Z) (l : list Z)
 Definition str_class (fn : Z) (l : list Z) : Z :=
   if negb (well_formed l) then 8
   else if fn =? 4 then 5
-  else if fn =? 5 then (if existsb (fun c => 128 <=? c) l then 6 else 7)
+  else if fn =? 5 then 8   (* an unpaired surrogate escape: the result would hold a lone surrogate *)
   else 0.
 
 Fixpoint chain_class (fns : list Z) (l : list Z) : Z :=
